@@ -36,8 +36,9 @@ Theorem C14_time_constant_real : forall N p (n n10 : nat),
 Proof. exact time_constant_real. Qed.
 
 (** the f32 filter follows the exact step response: after a step from lo to hi (the filter at
-    rest on lo) sample n of the output is lo + (hi - lo) * step_response p n up to the
-    resolution *)
+    rest on lo) sample n of the output is lo + (hi - lo) * step_response p n up to twice the
+    resolution (16 * 2^-24 / kappa relative to the signal bound B: for kappa = 0.6/fs that is 15% of B at
+    48 kHz; the version with the setting in force and approximate rest is C14_step_tracks_near_rest) *)
 Theorem C14_step_tracks : forall d lo hi n kappa B,
   good (d_c d) -> kappa <= speed (d_c d) -> / 100000 <= kappa ->
   fin lo -> fin hi -> Rabs (R32 lo) <= B -> Rabs (R32 hi) <= B ->
